@@ -1,0 +1,25 @@
+//go:build verif
+
+// Verification hooks: run the unexported command body with an injected client.
+// Compiled only with `-tags verif`; add-only, no existing line is changed.
+package freeze
+
+import (
+	"k8s.io/cli-runtime/pkg/genericclioptions"
+	"sigs.k8s.io/controller-runtime/pkg/client"
+)
+
+// VerifRun runs the body of `kubectl-eds freeze-rollout|unfreeze-rollout`.
+func VerifRun(c client.Client, streams genericclioptions.IOStreams, namespace, name string, freeze bool) error {
+	want := unfrozen
+	if freeze {
+		want = frozen
+	}
+	o := newfreezeOptions(streams, want)
+	o.client = c
+	o.userNamespace = namespace
+	o.userExtendedDaemonSetName = name
+	o.args = []string{name}
+
+	return o.run()
+}
